@@ -431,7 +431,7 @@ def main():
             log = r["log"]
             extract_summ.append({"unit": unit, "rules": log["rules"], "dropped_docs": log["dropped_docs"],
                                  "dropped_attrs": log["dropped_attrs"], "spliced_clauses": log["spliced_clauses"],
-                                 "spliced_loop_clauses": log["spliced_loop_clauses"], "rehomed": log.get("rehomed", []),
+                                 "spliced_loop_clauses": log["spliced_loop_clauses"], "rehomed": log.get("rehomed", []), "monomorphised": log.get("monomorphised", []),
                                  "extracted_fns": len(log["fns"]), "verus_verified_queries": r["verified"]})
             extracted = {}
             for f in log["fns"]:
